@@ -49,7 +49,7 @@ OwnVotesOf(o) ==
 
 PoolOut(r) == [ret |-> r.ret, ev |-> r.ev, rep |-> r.rep, woken |-> r.woken, panic |-> r.panic]
 NoPoolOut == [ret |-> "", ev |-> <<>>, rep |-> <<>>, woken |-> {}, panic |-> ""]
-NoVotorOut == [msgs |-> <<>>]
+NoVotorOut == [msgs |-> <<>>, arm |-> <<>>]
 
 Commit(a, p2, v2, c2, b2, l2, m2, po, vo) ==
   /\ pool' = p2 /\ votor' = v2 /\ chan' = c2 /\ bchan' = b2 /\ loop' = l2 /\ my' = m2
@@ -69,7 +69,7 @@ PoolStep(a, r) ==
 
 VotorStep(a, o, c2, b2) ==
   LET mine == OwnVotesOf(o) IN
-  Commit(a, pool, o.v, c2, b2, loop \cup mine, my \cup mine, NoPoolOut, [msgs |-> o.out])
+  Commit(a, pool, o.v, c2, b2, loop \cup mine, my \cup mine, NoPoolOut, [msgs |-> o.out, arm |-> o.arm])
 
 Quiet == ~Urgent \/ (chan = <<>> /\ bchan = <<>>)
 
